@@ -34,10 +34,11 @@ import (
 // ---------------------------------------------------------------- C04 / C07 histories
 
 type marker struct {
-	slow time.Duration
-	ver  int
-	mu   sync.Mutex
-	seen map[int]int
+	closes atomic.Int64
+	slow   time.Duration
+	ver    int
+	mu     sync.Mutex
+	seen   map[int]int
 }
 
 func (m *marker) Process(ctx context.Context, e *eventlogger.Event) (*eventlogger.Event, error) {
@@ -53,6 +54,7 @@ func (m *marker) Type() eventlogger.NodeType { return eventlogger.NodeTypeFilter
 
 // Close takes a while (a sink flushing): removals spend time outside the Broker's lock.
 func (m *marker) Close(ctx context.Context) error {
+	m.closes.Add(1)
 	if m.slow > 0 {
 		time.Sleep(m.slow)
 	}
@@ -787,6 +789,210 @@ func SharedRemoveStress(seed int64, rounds int) []Problem {
 			if err := b.RemoveNode(context.Background(), id); err != nil {
 				problems = append(problems, Problem{"C04", fmt.Sprintf("after %d concurrent RemovePipeline calls removed every pipeline, node %q cannot be removed (%v): no sequential order of the removals leaves it in use", pipes, id, err)})
 				break
+			}
+		}
+	}
+	return problems
+}
+
+// slowType is a formatter whose Type() takes a while when asked to: RegisterPipeline asks the last nodes of the
+// pipeline for their types when it validates the shape.
+type slowType struct {
+	leaf
+	slow    atomic.Bool
+	entered chan struct{} // signalled when Type() is asked while armed
+	release chan struct{} // Type() returns when this is closed, or after 2 ms
+}
+
+func newSlowType() *slowType {
+	return &slowType{leaf: leaf{eventlogger.NodeTypeFormatter}, entered: make(chan struct{}, 8), release: make(chan struct{})}
+}
+
+func (n *slowType) Type() eventlogger.NodeType {
+	if n.slow.Load() {
+		select {
+		case n.entered <- struct{}{}:
+		default:
+		}
+		select {
+		case <-n.release:
+		case <-time.After(2 * time.Millisecond):
+		}
+	}
+	return eventlogger.NodeTypeFormatter
+}
+
+// whenAsked waits until the node has been asked for its type (or 20 ms), runs f and lets Type() return.
+func (n *slowType) whenAsked(f func()) {
+	select {
+	case <-n.entered:
+	case <-time.After(20 * time.Millisecond):
+	}
+	f()
+	close(n.release)
+}
+
+// AtomicityStress: two registry calls that conflict are released from a barrier; each call of the registry takes
+// effect atomically (BrokerConc.tla / Registry.tla), so their results and the state they leave must be those of one
+// of the two sequential orders.
+func AtomicityStress(seed int64, rounds int) []Problem {
+	var problems []Problem
+	ctx := context.Background()
+	race := func(f1, f2 func()) {
+		var start, done sync.WaitGroup
+		start.Add(1)
+		done.Add(2)
+		go func() { defer done.Done(); start.Wait(); f1() }()
+		go func() { defer done.Done(); start.Wait(); f2() }()
+		start.Done()
+		done.Wait()
+	}
+	inUse := func(b *eventlogger.Broker, id eventlogger.NodeID) string {
+		// probe on a node we are willing to lose
+		err := b.RemoveNode(ctx, id)
+		switch {
+		case err == nil:
+			return "idle"
+		case errors.Is(err, eventlogger.ErrNodeNotFound):
+			return "gone"
+		default:
+			return "inuse"
+		}
+	}
+	for i := 0; i < rounds && len(problems) < 6; i++ {
+		// (1) RegisterPipeline vs RemoveNode of a node it lists
+		{
+			b, _ := eventlogger.NewBroker()
+			st := newSlowType()
+			sk := &countSink{}
+			b.RegisterNode("f", &leaf{eventlogger.NodeTypeFilter})
+			b.RegisterNode("fmt", st)
+			b.RegisterNode("sink", sk)
+			st.slow.Store(true)
+			var e1, e2 error
+			race(func() {
+				e1 = b.RegisterPipeline(eventlogger.Pipeline{PipelineID: "p", EventType: "t", NodeIDs: []eventlogger.NodeID{"f", "fmt", "sink"}})
+			}, func() {
+				st.whenAsked(func() { e2 = b.RemoveNode(ctx, "sink") })
+			})
+			st.slow.Store(false)
+			if e1 == nil && e2 == nil {
+				problems = append(problems, Problem{"C05", "RegisterPipeline([f fmt sink]) and RemoveNode(sink) ran concurrently and both succeeded: in either order one of them must be refused (the pipeline lists an unregistered node, or the node is in use)"})
+				continue
+			}
+			if e1 == nil {
+				b.Send(ctx, "t", i)
+				if sk.n.Load() != 1 {
+					problems = append(problems, Problem{"C05", fmt.Sprintf("a registered pipeline delivered %d times to its sink", sk.n.Load())})
+				}
+			}
+		}
+		// (2) RegisterPipeline (default policy) vs RegisterPipeline (DenyOverwrite) of the same id
+		{
+			b, _ := eventlogger.NewBroker()
+			st := newSlowType()
+			s1, s2 := &countSink{}, &countSink{}
+			b.RegisterNode("f", &leaf{eventlogger.NodeTypeFilter})
+			b.RegisterNode("fmt", st)
+			b.RegisterNode("fmt2", &leaf{eventlogger.NodeTypeFormatter})
+			b.RegisterNode("s1", s1)
+			b.RegisterNode("s2", s2)
+			st.slow.Store(true)
+			var e1, e2 error
+			race(func() {
+				e1 = b.RegisterPipeline(eventlogger.Pipeline{PipelineID: "p", EventType: "t", NodeIDs: []eventlogger.NodeID{"f", "fmt", "s1"}})
+			}, func() {
+				st.whenAsked(func() {
+					e2 = b.RegisterPipeline(eventlogger.Pipeline{PipelineID: "p", EventType: "t", NodeIDs: []eventlogger.NodeID{"fmt2", "s2"}}, eventlogger.WithPipelineRegistrationPolicy(eventlogger.DenyOverwrite))
+				})
+			})
+			st.slow.Store(false)
+			b.Send(ctx, "t", i)
+			n1, n2 := s1.n.Load(), s2.n.Load()
+			switch {
+			case e2 != nil:
+				problems = append(problems, Problem{"C07", "RegisterPipeline with DenyOverwrite over an id registered with the default policy failed: " + e2.Error()})
+			case e1 == nil && (n1 != 0 || n2 != 1):
+				// both succeeded: the default registration came first, the deny registration replaced it
+				problems = append(problems, Problem{"C07", fmt.Sprintf("both registrations of pipeline p succeeded, so the DenyOverwrite one came last; the Send reached s1 %d times and s2 %d times (the DenyOverwrite pipeline was overwritten)", n1, n2)})
+			case e1 != nil && (n1 != 0 || n2 != 1):
+				problems = append(problems, Problem{"C05", fmt.Sprintf("the refused registration left its mark: s1 %d, s2 %d deliveries", n1, n2)})
+			}
+			if e1 == nil && e2 == nil {
+				if st := inUse(b, "s1"); st != "idle" {
+					problems = append(problems, Problem{"C06", "node s1 of the replaced pipeline is " + st + ", want registered and unused"})
+				}
+			}
+		}
+		// (3) several RemovePipelineAndNodes of one pipeline that shares its nodes with a second pipeline
+		{
+			b, _ := eventlogger.NewBroker()
+			var ids []eventlogger.NodeID
+			var closers []*marker
+			for n := 0; n < 60; n++ {
+				id := eventlogger.NodeID(fmt.Sprintf("f%d", n))
+				m := &marker{ver: n, seen: map[int]int{}}
+				closers = append(closers, m)
+				b.RegisterNode(id, m)
+				ids = append(ids, id)
+			}
+			sk := &countSink{}
+			b.RegisterNode("fmt", &leaf{eventlogger.NodeTypeFormatter})
+			b.RegisterNode("sink", sk)
+			ids = append(ids, "fmt", "sink")
+			b.RegisterPipeline(eventlogger.Pipeline{PipelineID: "p1", EventType: "t", NodeIDs: ids})
+			b.RegisterPipeline(eventlogger.Pipeline{PipelineID: "p2", EventType: "t", NodeIDs: ids})
+			var r1, r2 bool
+			race(func() { r1, _ = b.RemovePipelineAndNodes(ctx, "t", "p1") }, func() { r2, _ = b.RemovePipelineAndNodes(ctx, "t", "p1") })
+			if r1 == r2 {
+				problems = append(problems, Problem{"C06", fmt.Sprintf("two concurrent RemovePipelineAndNodes of the same pipeline returned %v and %v: exactly one of them finds the pipeline", r1, r2)})
+			}
+			b.Send(ctx, "t", i)
+			if sk.n.Load() != 1 {
+				problems = append(problems, Problem{"C06", fmt.Sprintf("after p1 was removed, p2 (same nodes) delivered %d times", sk.n.Load())})
+			}
+			if err := b.RemoveNode(ctx, "f0"); err == nil || errors.Is(err, eventlogger.ErrNodeNotFound) {
+				problems = append(problems, Problem{"C06", fmt.Sprintf("after p1 was removed, node f0 is not in use although p2 still lists it (RemoveNode: %v)", err)})
+			}
+			for _, m := range closers {
+				if m.closes.Load() > 0 {
+					problems = append(problems, Problem{"C06", fmt.Sprintf("a node that p2 still lists was closed %d times", m.closes.Load())})
+					break
+				}
+			}
+		}
+		// (4) RemovePipelineAndNodes vs an overwrite of the same pipeline with other nodes
+		{
+			b, _ := eventlogger.NewBroker()
+			var xs, ys []eventlogger.NodeID
+			for n := 0; n < 40; n++ {
+				x, y := eventlogger.NodeID(fmt.Sprintf("x%d", n)), eventlogger.NodeID(fmt.Sprintf("y%d", n))
+				b.RegisterNode(x, &leaf{eventlogger.NodeTypeFilter})
+				b.RegisterNode(y, &leaf{eventlogger.NodeTypeFilter})
+				xs, ys = append(xs, x), append(ys, y)
+			}
+			b.RegisterNode("xf", &leaf{eventlogger.NodeTypeFormatter})
+			b.RegisterNode("xs", &leaf{eventlogger.NodeTypeSink})
+			b.RegisterNode("yf", &leaf{eventlogger.NodeTypeFormatter})
+			b.RegisterNode("ys", &leaf{eventlogger.NodeTypeSink})
+			xs, ys = append(xs, "xf", "xs"), append(ys, "yf", "ys")
+			b.RegisterPipeline(eventlogger.Pipeline{PipelineID: "p", EventType: "t", NodeIDs: xs})
+			var removed bool
+			var eo error
+			race(func() { removed, _ = b.RemovePipelineAndNodes(ctx, "t", "p") }, func() {
+				eo = b.RegisterPipeline(eventlogger.Pipeline{PipelineID: "p", EventType: "t", NodeIDs: ys})
+			})
+			if !removed || eo != nil {
+				problems = append(problems, Problem{"C04", fmt.Sprintf("RemovePipelineAndNodes(p) returned %v, overwrite of p returned %v", removed, eo)})
+				continue
+			}
+			reg := b.IsAnyPipelineRegistered("t")
+			x0, y0 := inUse(b, "x0"), inUse(b, "y0")
+			// remove first: p = ys registered (y in use), x gone.  overwrite first: x released (idle), then p (ys) removed with its nodes (y gone)
+			okA := reg && y0 == "inuse" && x0 == "gone"
+			okB := !reg && y0 == "gone" && x0 == "idle"
+			if !okA && !okB {
+				problems = append(problems, Problem{"C06", fmt.Sprintf("RemovePipelineAndNodes(p over x*) raced an overwrite of p with y*: pipeline registered=%v, x0 %s, y0 %s - neither order of the two calls leaves this (remove first: registered, x gone, y in use; overwrite first: not registered, x idle, y gone)", reg, x0, y0)})
 			}
 		}
 	}
